@@ -15,6 +15,32 @@ theorem applyAll_append (s : Store) (a b : List SW) : s.applyAll (a ++ b) = (s.a
 
 theorem applyAll_nil (s : Store) : s.applyAll [] = s := rfl
 
+theorem applyBlock_store {n n' : FNode} {sh : SHeader} {d : Data} {ws : List SW} {cont : Bool}
+    (h : applyBlock n sh d .ok = (n', ws, cont)) : n'.store = n.store.applyAll ws := by
+  simp only [applyBlock, Prod.mk.injEq] at h
+  obtain ⟨rfl, rfl, _⟩ := h
+  simp only [applyAll_append]
+  rfl
+
+theorem dropMismatch_store {n n' : FNode} {sh : SHeader} {ws : List SW} {cont : Bool}
+    (h : dropMismatch n sh .ok = (n', ws, cont)) : n'.store = n.store.applyAll ws := by
+  unfold dropMismatch at h
+  simp only at h
+  split at h
+  · simp only [Prod.mk.injEq] at h
+    obtain ⟨rfl, rfl, _⟩ := h
+    rfl
+  · split at h
+    · simp only [Prod.mk.injEq] at h
+      obtain ⟨rfl, rfl, _⟩ := h
+      rfl
+    · split at h
+      · have := applyBlock_store h
+        exact this
+      · simp only [Prod.mk.injEq] at h
+        obtain ⟨rfl, rfl, _⟩ := h
+        rfl
+
 theorem applyNext_store {n n' : FNode} {ws : List SW} {cont : Bool}
     (h : applyNext n .ok = some (n', ws, cont)) : n'.store = n.store.applyAll ws := by
   cases hH : getH n (n.store.height + 1) with
@@ -25,14 +51,16 @@ theorem applyNext_store {n n' : FNode} {ws : List SW} {cont : Bool}
     | some d =>
       cases hv : execValidate n.lastState sh d with
       | some e =>
-        simp only [applyNext, hH, hD, hv, Option.some.injEq, Prod.mk.injEq] at h
-        obtain ⟨rfl, rfl, _⟩ := h
-        rfl
+        simp only [applyNext, hH, hD, hv] at h
+        split at h
+        · simp only [Option.some.injEq] at h
+          exact dropMismatch_store h
+        · simp only [Option.some.injEq, Prod.mk.injEq] at h
+          obtain ⟨rfl, rfl, _⟩ := h
+          rfl
       | none =>
-        simp only [applyNext, hH, hD, hv, Option.some.injEq, Prod.mk.injEq] at h
-        obtain ⟨rfl, rfl, _⟩ := h
-        simp only [applyAll_append]
-        rfl
+        simp only [applyNext, hH, hD, hv, Option.some.injEq] at h
+        exact applyBlock_store h
 
 theorem trySync_store : ∀ (fuel : Nat) (n : FNode),
     (trySync fuel n []).1.store = n.store.applyAll (trySync fuel n []).2 := by
